@@ -1333,6 +1333,14 @@ class Interp:
             (i, g), = a.alts.items()
             if g is True:
                 return ('o', id(a.atoms), i)
+        if isinstance(a, MRef):
+            return ('m', a.cell, tuple((p[0], self.vkey(p[1]) if len(p) > 1 else None) for p in a.path))
+        if isinstance(a, IterV):
+            return ('it', a.kind, tuple(self.vkey(f) for f in a.fields))
+        if isinstance(a, SRef):
+            return ('r', self.vkey(a.val))
+        if isinstance(a, Adt) and a.ty in ('PeekState', 'Option') and len(a.alts) <= 2:
+            return (a.ty, tuple(sorted((i, self.vkey(g), tuple(self.vkey(f) for f in fs)) for i, (g, fs) in a.alts.items())))
         return id(a)
 
     def mem_key(self, roots, mem):
